@@ -6,7 +6,11 @@ import (
 	"bytes"
 	"encoding/hex"
 	"fmt"
+	"encoding/json"
 	"math/big"
+	"os"
+	"regexp"
+	"strconv"
 	"strings"
 	"testing"
 
@@ -175,6 +179,70 @@ type vc11Case struct {
 	kind   string
 	fields []vc11Field
 	txid   string
+	named  *vc11Named // set for events built in the order the contract emits them (layout extracted from governance.ral)
+}
+
+// the values the contract passed to `emit WormholeMessage`, by parameter name
+type vc11Named struct {
+	sender, nonce, payload []byte
+	tc, seq, cl            *big.Int
+}
+
+// layout of the contract side, extracted from the Ralph sources by gen/x_attest.py and handed over in VERIF_C11_RAL
+type vc11Ral struct {
+	Payload   []string       `json:"payload"`
+	PayloadID string         `json:"payload_id"`
+	Sizes     map[string]int `json:"sizes"`
+	Event     []string       `json:"event"`
+	Types     []string       `json:"types"`
+	Target    int            `json:"target"`
+}
+
+var vc11PartRe = regexp.MustCompile(`^u256To(\d+)Byte!\((\w+)\)$`)
+
+// the attestation payload as token_bridge.ral attestToken concatenates it
+func (l *vc11Ral) attestPayload(id []byte, chain uint64, dec uint64, sym, name []byte) []byte {
+	p := []byte{}
+	for _, part := range l.Payload {
+		if part == "PayloadId.AttestToken" {
+			b, _ := hex.DecodeString(l.PayloadID)
+			p = append(p, b...)
+		} else if m := vc11PartRe.FindStringSubmatch(part); m != nil {
+			n, _ := strconv.Atoi(m[1])
+			v := map[string]uint64{"localChainId": chain, "decimals": dec}[m[2]]
+			b := make([]byte, n)
+			for i := n - 1; i >= 0; i-- {
+				b[i] = byte(v)
+				v >>= 8
+			}
+			p = append(p, b...)
+		} else {
+			p = append(p, map[string][]byte{"localTokenId": id, "symbol": sym, "name": name}[part]...)
+		}
+	}
+	return p
+}
+
+// the event as a node reports it: one field per emit argument, in the emit's order
+func (l *vc11Ral) event(n *vc11Named) []vc11Field {
+	fs := []vc11Field{}
+	for _, nm := range l.Event {
+		switch nm {
+		case "sender":
+			fs = append(fs, vc11B(hex.EncodeToString(n.sender)))
+		case "nonce":
+			fs = append(fs, vc11B(hex.EncodeToString(n.nonce)))
+		case "payload":
+			fs = append(fs, vc11B(hex.EncodeToString(n.payload)))
+		case "targetChainId":
+			fs = append(fs, vc11U(n.tc.String()))
+		case "sequence":
+			fs = append(fs, vc11U(n.seq.String()))
+		case "consistencyLevel":
+			fs = append(fs, vc11U(n.cl.String()))
+		}
+	}
+	return fs
 }
 
 func vc11Recover(f func()) (p string) {
@@ -239,6 +307,17 @@ func vc11RunWM(o *vc11Out, id int, c vc11Case) map[string]interface{} {
 		}
 		if err != nil && fits && canonical {
 			mon = append(mon, "event whose values fit the VAA format was rejected: "+err.Error())
+		}
+	}
+	if c.named != nil && pn == "" {
+		n := c.named
+		if err != nil {
+			mon = append(mon, "event in the order the contract emits it was rejected: "+err.Error())
+		} else if !bytes.Equal(msg.senderId[:], n.sender) || big.NewInt(int64(msg.targetChainId)).Cmp(n.tc) != 0 ||
+			new(big.Int).SetUint64(msg.Sequence).Cmp(n.seq) != 0 || new(big.Int).SetBytes(n.nonce).Cmp(big.NewInt(int64(msg.nonce))) != 0 ||
+			!bytes.Equal(msg.payload, n.payload) || big.NewInt(int64(msg.consistencyLevel)).Cmp(n.cl) != 0 {
+			mon = append(mon, fmt.Sprintf("event emitted by the contract with targetChainId=%s sequence=%s consistencyLevel=%s nonce=%x was decoded to target chain %d, sequence %d, consistency level %d, nonce %08x (or another sender / payload)",
+				n.tc, n.seq, n.cl, n.nonce, msg.targetChainId, msg.Sequence, msg.consistencyLevel, msg.nonce))
 		}
 	}
 	if pn == "" && err == nil && msg != nil {
@@ -323,7 +402,7 @@ func TestVerifC11(t *testing.T) {
 	defer o.close()
 	id := 0
 	wm := func(kind string, fields []vc11Field, txid string) {
-		vc11RunWM(o, id, vc11Case{kind, fields, txid})
+		vc11RunWM(o, id, vc11Case{kind, fields, txid, nil})
 		id++
 	}
 	goodSender := "deae14cf3bcfaea1f8f7e905fd8b554833d1bccaa8a9a1dd01f29fea6c7bca07"
@@ -683,6 +762,43 @@ func TestVerifC11(t *testing.T) {
 			p[33], p[34] = 0, 255
 		}
 		emitAtt("random", p, nil)
+	}
+
+	// ------------------------------------------------------------------ the contract side as extracted from the Ralph sources
+	if js := os.Getenv("VERIF_C11_RAL"); js != "" {
+		var l vc11Ral
+		if err := json.Unmarshal([]byte(js), &l); err != nil {
+			t.Fatal("VERIF_C11_RAL: ", err)
+		}
+		padTo := func(b []byte, n int) []byte {
+			if len(b) >= n {
+				return b[:n]
+			}
+			return append(make([]byte, n-len(b)), b...)
+		}
+		nRal := 12
+		if vc11Thorough() {
+			nRal = 200
+		}
+		for i := 0; i < nRal; i++ {
+			idb := r.bytes(l.Sizes["localTokenId"])
+			dec := []uint64{0, 8, 18, 255}[i%4]
+			sym := padTo(names[1+i%8], l.Sizes["symbol"])
+			nm := padTo(names[1+(i+3)%8], l.Sizes["name"])
+			p := l.attestPayload(idb, 255, dec, sym, nm)
+			a := &att{"ral-contract", 2, idb, []byte{0, 255}, byte(dec), sym, nm, true}
+			emitAtt("ral-contract", p, a)
+			// the event attestToken publishes: (payer, <target>, nextSendSequence(), nonce, payload, consistencyLevel)
+			cl := []int64{0, 1, 10, 105, 255}[i%5]
+			seq := new(big.Int).SetUint64(r.next() >> uint(r.below(64)))
+			nd := &vc11Named{sender: r.bytes(32), nonce: r.bytes(l.Sizes["nonce"]), payload: p, tc: big.NewInt(int64(l.Target)), seq: seq, cl: big.NewInt(cl)}
+			vc11RunWM(o, id, vc11Case{"ral-event", l.event(nd), hex.EncodeToString(r.bytes(32)), nd})
+			id++
+			// a transfer-like event to another chain (publishWormholeMessage is also called with toChainId)
+			nd2 := &vc11Named{sender: r.bytes(32), nonce: r.bytes(l.Sizes["nonce"]), payload: r.bytes(133), tc: big.NewInt(int64(1 + r.below(65535))), seq: big.NewInt(int64(i)), cl: big.NewInt(cl)}
+			vc11RunWM(o, id, vc11Case{"ral-event", l.event(nd2), hex.EncodeToString(r.bytes(32)), nd2})
+			id++
+		}
 	}
 
 	// ------------------------------------------------------------------ bytesToString
